@@ -118,3 +118,32 @@ add("C17",
     shards={"quick": 16, "thorough": 16},
     require_counts=["end_to_end_cases"],
     )
+
+add("C08",
+    engine="SEQ",
+    level="exploration",
+    technique="bounded exhaustive enumeration: configuration grid x scripted histories of every pack writer, independent decoding of every pack, every subset of index files removed before repair-index",
+    design_ref="DESIGN.md §4.1, §5 C08",
+    level_text="For each configuration of a grid (repo v1 / v2 default compression / v2 uncompressed / v2 level 19; one-blob, 300 B and 4 MiB packs; tiny and default chunker) one history runs every pack writer "
+               "(backup, prune with re-encoding, fast and uncompressed repack, merge, rewrite, copy into a repository with another key and configuration, repair snapshots). After every step every pack in the store "
+               "is decoded by an independent parser: name = sha256, trailer/header lengths, entries in file order with contiguous offsets, each blob decrypts, inflates to the recorded length and hashes to its id, "
+               "and the (id,type,offset,length,uncompressed length) sequence and size equal every index entry of that pack. At three points every non-empty subset of index files is removed; repair-index must succeed, "
+               "all snapshots must read back to the source model, packs and index must agree again and check must be clean.",
+    level_note="Histories are fixed scripts (the state space of histories is C02's subject); the grid bounds blob sizes to what tiny chunker parameters and a 1.2 KiB source produce.",
+    shards={"quick": 16, "thorough": 16},
+    require_counts=["index_subsets_removed", "packs_verified"],
+    )
+
+add("C07",
+    engine="SEQ",
+    level="model_checking",
+    technique="explicit-state BFS over edit scripts between real backups, compared with an independent reference chunker",
+    design_ref="DESIGN.md §4.1, §5 C07",
+    level_text="Breadth-first search (depth 3 quick / 4 thorough after an initial backup) over 12 edits {none, touch, prepend 1/64 bytes, insert at a chunk boundary / mid-chunk, delete a range, overwrite a range, duplicate file, rename, "
+               "move directory, add a file equal to one chunk, add a file equal to a serialised tree} from three base sources (multi-chunk, shared region, repetitive). Every transition is one real backup through a fresh handle; "
+               "the data blobs in the packs it wrote must equal exactly {chunks of the new source by an independent bit-serial Rabin chunker} minus {data blobs indexed before}, written trees must be new and referenced, "
+               "an unchanged source must write no pack and keep the tree id, summary counters must equal what the packs hold, and a data blob sharing its id with a tree must be stored next to it.",
+    level_note="Tiny chunker parameters (64/64/256) make 3 KiB files multi-chunk; the default chunker is used where a whole file must be one chunk. Trees are compared by reference structure, not re-serialised independently.",
+    shards={"quick": 16, "thorough": 16},
+    require_counts=["unchanged_backups", "edits_with_reused_chunks", "edits_resynchronised_after_change", "tree_data_id_collisions_kept"],
+    )
